@@ -16,11 +16,19 @@ Time is in abstract ticks (`lifetime_ns` = `lifetime` ticks).  Caller ids stand 
 -/
 namespace HailVerif.Cache
 
+/-- a value the load function can return and the cache stores: `none` = Python's `None` (a legitimate value: no JAR for a revision,
+unknown session), `some n` = any other object, falsy ones (`0`, `''`, `[]`) included.  The cache never inspects the value:
+whether a key is cached is decided by the KEY alone (`k in self._cache`). -/
+abbrev Val := Option Nat
+
+/-- numerals denote ordinary (non-`None`) values -/
+instance (n : Nat) : OfNat Val n := ⟨some n⟩
+
 /-- one key of `_cache` / `_expiry_time` -/
 structure Entry where
   key : Nat
   /-- `self._cache[key]` -/
-  val : Nat
+  val : Val
   /-- `self._expiry_time[key]` -/
   expiry : Nat
   deriving DecidableEq, Repr
@@ -45,7 +53,7 @@ structure State where
 
 inductive Op where
   | lookup (c k : Nat)
-  | loadOk (k v : Nat)
+  | loadOk (k : Nat) (v : Val)
   | loadFail (k : Nat)
   | cancelCaller (c : Nat)
   | advance (dt : Nat)
@@ -56,13 +64,13 @@ inductive Ev where
   /-- `lookup` found `k` expired and removed it -/
   | expired (k : Nat)
   /-- `lookup` of caller `c` returned `self._cache[k] = v` at time `t` -/
-  | hit (c k v t : Nat)
+  | hit (c k : Nat) (v : Val) (t : Nat)
   /-- `asyncio.create_task(self._load_and_put(k))` -/
   | started (k : Nat)
   /-- caller `c` waits for the load of `k` -/
   | joined (c k : Nat)
   /-- `_put(k, v)` at time `t` (the load of `k` finished successfully) -/
-  | put (k v t : Nat)
+  | put (k : Nat) (v : Val) (t : Nat)
   /-- `_evict_oldest` removed `k` -/
   | evicted (k : Nat)
   /-- the load of `k` finished with an exception -/
@@ -70,7 +78,7 @@ inductive Ev where
   /-- the load of `k` was cancelled (only the pre-repair variant can do this) -/
   | loadCancelled (k : Nat)
   /-- waiting caller `c` received the value `v` loaded for `k` at time `t` -/
-  | loaded (c k v t : Nat)
+  | loaded (c k : Nat) (v : Val) (t : Nat)
   /-- waiting caller `c` had the load's exception re-raised -/
   | failed (c k : Nat)
   /-- caller `c` raised `CancelledError` -/
